@@ -1357,6 +1357,16 @@ package lang
 //@   modifies nothing
 
 // num(x)
+// json(v): the library serialisation of the Go value ToGoValue builds for v (C04's conversion contract);
+// a value JSON cannot express is an error.  encoding/json.MarshalIndent itself is an unconstrained external.
+//@ func nativeJson [C04,C16]
+//@   implements Value.NativeFn
+//@   ensures[C16] one-argument: len(args) != 1 ==> err != nil
+//@   ensures[C04,C16] inexpressible-argument-is-an-error: len(args) == 1 && (args[0].Tag == ValueFn || args[0].Tag == ValueNativeFn || args[0].Tag == ValueRegex) ==> err != nil
+//@   ensures[C16] result-is-text: err == nil ==> result0 != nil && result0.Tag == ValueStr
+//@   assert[C04,C16] serialises-its-own-argument: arg0 == args[0] @ Value.ToGoValue
+//@   modifies nothing
+
 //@ func nativeNum [C16]
 //@   implements Value.NativeFn
 //@   ensures[C16] one-argument: (err != nil) <==> len(args) != 1
@@ -1403,6 +1413,8 @@ package lang
 //@   requires v != nil && !$faulted
 //@   updates $faulted
 //@   modifies nothing
+//@   ensures[C04] inexpressible-is-an-error: (v.Tag == ValueFn || v.Tag == ValueNativeFn || v.Tag == ValueRegex) ==> err != nil
+//@   ensures[C04] scalars-convert: err == nil && v.Tag == ValueStr ==> istype(result0, string) && as(result0, string) == *v.Str
 //@   ensures[C11] fault-latched: $faulted <==> err != nil
 //@   ensures[C01] errkind: err == nil || isPlainErr(err)
 
